@@ -149,11 +149,20 @@ pub fn run(args: &Args) -> Report {
             .match_indices(&needle)
             .filter_map(|(i, _)| {
                 let tail = &flat[i..(i + 400).min(flat.len())];
-                tail.find("StdRequestDeserializer<").map(|j| tail[j + 23..].chars().take_while(|c| c.is_ascii_digit()).collect::<String>())
+                tail.find("StdRequestDeserializer<").map(|j| tail[j + 23..].chars().take_while(|c| *c != '>').collect::<String>())
             })
             .collect();
+        // the const argument as a number: a literal (with or without suffix / separators) or a
+        // product of literals; anything else is not judged
+        let eval = |e: &str| -> Option<u64> {
+            let cleaned: String = e.chars().filter(|c| !c.is_whitespace() && *c != '_' && *c != '{' && *c != '}' && *c != '(' && *c != ')').collect();
+            cleaned.replace("usize", "").replace("u64", "").split('*').map(|f| f.parse::<u64>().ok()).try_fold(1u64, |acc, f| f.and_then(|f| acc.checked_mul(f)))
+        };
+        let values: Vec<Option<u64>> = limits.iter().map(|l| eval(l)).collect();
         let want_s = want.to_string();
-        if limits.len() >= 2 && limits.iter().all(|l| *l == want_s) {
+        if values.len() < 2 || values.iter().any(|v| v.is_none()) {
+            report.outcome("size-limit-tag:not-readable-from-the-generated-code (not judged)");
+        } else if values.iter().all(|v| *v == Some(want)) {
             report.outcome("size-limit-tag:unit-as-specified");
         } else {
             report.violation(format!("C06|loopback|size-limit-unit|{}", tag.replace(' ', "")), format!("endpoint tagged `server-limit-request-size: {}` is generated with limits {:?}, the tag means {} bytes", tag, limits, want_s), json!({"endpoint": method, "tag": tag}));
